@@ -67,7 +67,10 @@ STREAM_NOTE = ("Bounded: exhaustive for streams <= 5 (chunker) / <= 4 (reader) o
                "byte, corruption, garbage, sentinel runs, FE/FD fragments; block sizes up to the 512 KiB default; short-read / "
                "EINTR schedules; prepared arena fill states for the chunker). Hard I/O errors inside the chunker are outside "
                "the property (covered for read_n by C17). Besides chunk_judge, a family of judges that skip / stop at chosen record offsets "
-               "is in the A-spec, the I-spec, the MC and the real runs; judges that consume part of the record are not driven.")
+               "is in the A-spec, the I-spec, the MC and the real runs; judges that consume part of the record are not driven. Also sampled: 140 KB "
+               "streams with stuff sequences straddling / at 3000, 4096, 64 KiB, 128 KiB with block sizes of 64 KiB..1 MiB and the 512 KiB "
+               "default, logs of valid records whose delimiter lands at 65535 +- 2, records right at the judge's size limit, callers that drop "
+               "every chunk at once and flush / replace / grow their arena between two pumps.")
 
 PIPE_NOTE = ("Design level: OwningIovecImpl.tla transcribes OwningIovec / GlobalDeque / ByteArena (slices, anchors, allocation cache, "
              "chunk-size sequence, backref deque, merge rule, consume/consume_by_bytes, push_anchor, clone/take) with tiny constants "
@@ -80,7 +83,11 @@ PIPE_NOTE = ("Design level: OwningIovecImpl.tla transcribes OwningIovec / Global
              "drop-all. Trusts hook H2 (registry calls in Chunk::new/Drop; verif_projection is read-only), debug poison 0xFC, TLC, the "
              "harness recording. The I-spec also covers swap_arena, short reads (partial release), ensure / flush; ArenaSizes.tla checks the "
              "transcribed find_hint_size with the real size sequence. Wrong-size backfills (documented panic, placeholder stays pending), "
-             "clones taken while a placeholder is pending and anchor interleavings K / K' / K are driven too. Address reuse "
+             "clones taken while a placeholder is pending, clone_from onto a live object, Read::read_to_end, storms of up to 12 placeholders of "
+             "1..300 bytes and anchor interleavings K / K' / K are driven too. The A-spec remembers per object how many leading bytes were read "
+             "and right at the last observation: if they differ later, their memory was handed out again (C05, overlap clause). The structural "
+             "invariants of the I-spec (anchor counts, backref targets, counters) are evaluated on the real H2 projection after every operation "
+             "and reported as DRIFT. Address reuse "
              "by the allocator can hide a dangling slice from the registry classification (content comparison still applies). A process "
              "death of the harness (abort on an unsafe-precondition check, segfault) in a run is recorded as a violation of C05.")
 
@@ -126,7 +133,8 @@ CHECKS = {
                 "single orderings breaks NoTorn. The real code is then executed on a simulated RA memory at atomic-step granularity: every "
                 "edge (thread, reads-from) of an MC graph, any TLC counterexample, and thousands of seeded random schedules x reads-from "
                 "choices incl. stale reads; TLC validates each execution for legality and checks the monitors on the real return values "
-                "(the real voucher check panicking on a torn pair is a violation). An enumerated grid of writer suspension points x "
+                "(the real voucher check panicking on a torn pair is a violation; an update() that held the lock and did not commit must not have been "
+                "newer than the base time current then, also after another writer died on a mismatched pair). An enumerated grid of writer suspension points x "
                 "solo reader / try_update scripts with extreme reads-from choices adds the quantifier of C18 to the same traces.",
         "design_ref": "DESIGN.md section 6, C13",
         "note": ATOMIC_NOTE,
@@ -196,7 +204,8 @@ CHECKS = {
                 "read_n, encode_read, decode_read; TLC validates the recorded reader calls, results, returned bytes, and that the codec's "
                 "later output is the format's encoding/decoding of exactly the bytes read; plus random longer scripts and counts at the "
                 "4096 / 1 MiB / 2 MiB chunk boundaries on fresh, young, nearly full and maximal arenas with readers that deliver, fail at once, "
-                "exhaust the attempts or hit EOF. ReadNInd.tla discharges the byte accounting as an inductive invariant with Apalache "
+                "exhaust the attempts or hit EOF; the second hard error is a different ErrorKind from run to run; half of the encoder runs encode "
+                "'a FE' before and 'FD z' after the read (a read that delivers nothing between a held-back FE and an FD). ReadNInd.tla discharges the byte accounting as an inductive invariant with Apalache "
                 "(unbounded counts).",
         "design_ref": "DESIGN.md section 6, C17",
         "note": "Bounded enumeration as stated; larger counts sampled. Readers that deliver more than requested or return 0 before "
@@ -301,7 +310,8 @@ CHECKS = {
         "text": "TLC checks on the transcribed encoder: output = RefEncode(input) for every segmentation (=> a function of the input only), no FE FD, "
                 "length <= len+1+2*ceil(len/L2), for all inputs within bounds. On the real code (H3 edge cover, random tiny-limit runs, production "
                 "runs) TLC validates for every recorded run: complete output (drained ++ finish) has no FE FD anywhere, satisfies the bound with the "
-                "literal constant 64008, and equals the output of every other run with the same input (different segmentation / method / drains).",
+                "literal constant 64008, and equals the output of every other run with the same input (different segmentation / method / drains; every random "
+                "tiny-limit input is encoded a second time with another segmentation; the replay of such a violation re-executes the whole group).",
         "design_ref": "DESIGN.md section 6, C01/C02/C07",
         "note": CODEC_NOTE,
     },
@@ -327,7 +337,8 @@ CHECKS = {
                 "(content too for small runs), and for each drain (consume / advance_slices / Read with amounts below, at and far above what is "
                 "consumable) the bytes removed and the reported count; TLC checks: observed bytes never change and are a prefix of drained++finish, "
                 "each drain removes exactly what it reports, lag <= 1 MiB + L2 + 2 for encoders and 0 (no pending backpatch) for decoders, finish leaves "
-                "nothing pending, and when anything was drained, drained ++ finish is the complete output. Also driven: codecs built on a "
+                "nothing pending, and when anything was drained, drained ++ finish is the complete output. For short inputs the decoder must have made "
+                "consumable exactly what the input fed so far determines (the transcribed decoder's output): fewer bytes is a lag. Also driven: codecs built on a "
                 "pre-populated OwningIovec (new_from_iovec: earlier contents are kept), Decoder::take_iovec mid-stream, input read ahead of the "
                 "codec, input from a producer arena that is dropped later. For short inputs the transcribed state machines (HcobsCodec.tla) run as a "
                 "shadow on the same pieces; disagreements on appended / consumable counts or on the reject point are reported as DRIFT.",
